@@ -168,7 +168,8 @@ pub fn tokenize(src: &str) -> Option<Vec<Tok>> {
 
 /// tokens may be written without any separator when one side is one of `{ } ( ) , ;` and no other token is formed
 pub fn separable(l: &Tok, r: &Tok) -> bool {
-    let p = |t: &Tok| t.kind == "punct" && matches!(t.text.as_str(), "{" | "}" | "(" | ")" | "," | ";");
+    // single-character lexical items (X.680 12.37) next to which no white-space is needed
+    let p = |t: &Tok| t.kind == "punct" && matches!(t.text.as_str(), "{" | "}" | "(" | ")" | "," | ";" | ":" | "[" | "]" | "<" | "|" | "^" | "@" | "!");
     if !(p(l) || p(r)) {
         return false;
     }
@@ -177,7 +178,7 @@ pub fn separable(l: &Tok, r: &Tok) -> bool {
     // never create `--`, `/*`, `*/`, `[[`, `]]`, `..`, `::=`
     let lc = lt.chars().last().unwrap_or(' ');
     let rc = rt.chars().next().unwrap_or(' ');
-    !matches!((lc, rc), ('-', '-') | ('/', '*') | ('*', '/') | ('[', '[') | (']', ']') | ('.', '.') | (':', ':'))
+    !matches!((lc, rc), ('-', '-') | ('/', '*') | ('*', '/') | ('[', '[') | (']', ']') | ('.', '.') | (':', ':') | (':', '=') | ('<', '.') | ('.', '<'))
 }
 
 pub fn join(tokens: &[Tok], seps: &[String]) -> String {
@@ -223,7 +224,7 @@ pub fn feature_modules() -> Vec<(&'static str, String)> {
         m("tags", "A ::= [5] INTEGER B ::= [APPLICATION 3] EXPLICIT BOOLEAN S ::= SEQUENCE { a [0] IMPLICIT INTEGER, b [PRIVATE 1] EXPLICIT NULL, c [UNIVERSAL 29] UTF8String }"),
         m("refs", "T ::= SEQUENCE { x U } U ::= INTEGER (0..7) V ::= T W ::= U (0..3)"),
         m("values", "a INTEGER ::= 5 b BOOLEAN ::= TRUE c NULL ::= NULL d UTF8String ::= \"he said \"\"hi\"\"\" e BIT STRING ::= '0101'B f OCTET STRING ::= 'AF09'H g OBJECT IDENTIFIER ::= { iso member-body(2) 840 } h INTEGER ::= -17 i INTEGER ::= a"),
-        m("values2", "E ::= ENUMERATED { x, y } e E ::= y C ::= CHOICE { n INTEGER, b BOOLEAN } c C ::= n : 5 S ::= SEQUENCE { p INTEGER, q BOOLEAN } s S ::= { p 1, q TRUE } L ::= SEQUENCE OF INTEGER l L ::= { 1, 2, 3 } B ::= BIT STRING { r(0), s(2) } bb B ::= { r, s }"),
+        m("values2", "E ::= ENUMERATED { x, y } ev E ::= y C ::= CHOICE { n INTEGER, b BOOLEAN } cv C ::= n : 5 S ::= SEQUENCE { p INTEGER, q BOOLEAN } sv S ::= { p 1, q TRUE } L ::= SEQUENCE OF INTEGER lv L ::= { 1, 2, 3 } B ::= BIT STRING { r(0), s(2) } bb B ::= { r, s }"),
         m("defaults", "E ::= ENUMERATED { x, y } S ::= SEQUENCE { a INTEGER (0..10) DEFAULT 5, b E DEFAULT y, c BIT STRING { p(0), q(1) } DEFAULT { q }, d OCTET STRING DEFAULT 'FF'H, e BOOLEAN DEFAULT FALSE }"),
         m("values3", "Sv ::= SEQUENCE { a INTEGER, b BOOLEAN OPTIONAL } sv Sv ::= { a 1, b TRUE } Lv ::= SEQUENCE OF INTEGER lv Lv ::= { 5 } Cv ::= CHOICE { s Sv, l Lv } cv Cv ::= l:{ 7 } cw Cv ::= s:{ a 2, b FALSE }"),
         m("upper-type-names", "PDU ::= SEQUENCE { id INTEGER (0..7), ok BOOLEAN } msg PDU ::= { id 1, ok TRUE } ID ::= INTEGER (0..7) one ID ::= 1 LIST ::= SEQUENCE OF ID lst LIST ::= { 1, 2 } Hld ::= SEQUENCE { p PDU DEFAULT { id 2, ok FALSE } }"),
